@@ -349,11 +349,11 @@ def c04_obligations(chk):
         xz = npmodel.getitem(it, cov, (slice(NST, None), slice(None, NST))); xz.mat_name = "Cxz"
         o.attrs.update(cov_mat_zz=zz, cov_mat_xx=xx, cov_mat_zx=zx, cov_mat_xz=xz)
         ha["o"] = o
-        it.call_repo(IPS, "PhaseScreen.makeAMatrix", [], {}, self_obj=o)
-        # transposition facts between the blocks are needed before B is built from A and Czx
+        # transposition facts between the blocks (pointwise symmetry of the separations) are needed before A is built from Czx and B from A and Czx
         for nm in ("cov_mat_zz", "cov_mat_xx", "cov_mat_zx", "cov_mat_xz"):
             matalg.to_mat(it, o.attrs[nm])
         matalg.link_transposes(it)
+        it.call_repo(IPS, "PhaseScreen.makeAMatrix", [], {}, self_obj=o)
         it.call_repo(IPS, "PhaseScreen.makeBMatrix", [], {}, self_obj=o)
         return it, o
 
